@@ -16,6 +16,7 @@ Requests (one per line; `F` is a fault: `-` none, `f<k>` fail the k-th commit of
 * `basecheck`  compares the closed-form base image with the fold of the model's own store writes
 * `touch`      any access to the running filter (initialises a lazy one)
 * `save` | `load`   remember / restore the node (to branch into a crash and come back)
+* `obsd`       like `obs` without the memory filter (printed as lazy)
 * `obs`        height, state root, memory filter, persisted windows, snapshot, L1 head
 * `membits` | `winbits <lo>` | `snapbits`    sorted set cells `block:bit,…`
 * `init`       what InitializeRunningEventFilter yields on the present disk (`lo/next` or `err`)
@@ -211,6 +212,7 @@ def step (s : DState) (line : String) : DState × String :=
     | some n => ({ s with node := n }, "ok")
     | none => (s, "bad-op")
   | ["obs"] => (s, obsStr s.W s.node)
+  | ["obsd"] => (s, obsStr s.W ⟨s.node.disk, .lazy⟩)
   | ["membits"] =>
     (s, match s.node.mem with | .ready f => cellsStr f.win.cells | _ => "-")
   | ["winbits", lo] =>
